@@ -1361,9 +1361,19 @@ func (m *Mint) TransactionFees(inputs cashu.Proofs) uint {
 	for _, proof := range inputs {
 		// note: not checking that proof id is from valid keyset
 		// because already doing that in call to verifyProofs
-		fees += m.keysets[proof.Id].InputFeePpk
+		ppk := m.keysets[proof.Id].InputFeePpk
+		if fees+ppk < fees {
+			// the sum does not fit: charge the largest fee there is
+			fees = ^uint(0)
+			break
+		}
+		fees += ppk
 	}
-	return (fees + 999) / 1000
+	// round up without overflowing
+	if fees%1000 == 0 {
+		return fees / 1000
+	}
+	return fees/1000 + 1
 }
 
 func (m *Mint) ListKeysets() nut02.GetKeysetsResponse {
